@@ -10,6 +10,8 @@ ASSUMPTIONS = [
     'A6 the input does not end, and no new section starts, inside an unterminated merge-conflict region',
     'A8 a section with a pending mode-change header reaches its first hunk only through `---`/`+++` lines',
     'A9 (when file headers are handled) every hunk is preceded by the `+++`/`rename to` line of its section',
+    'A11 within one file section of git output the names on the `---`/`+++` lines are the names on its rename/copy lines (a pair already recorded as handled stays equal when it is refreshed); '
+    '`Submodule` / `Only in` lines do not occur inside a section that has mode-change lines pending (extension of A8)',
     'writes to the output stream succeed (the Err edge of `?` on io::Result is C18\'s business)',
     'config values are constants of a run; color_only, merge-conflict handling and the file-style rawness are pinned per analysis mode; '
     'file_style.is_omitted is pinned false (with an omitted file style the header writer returns before any write)',
